@@ -1,4 +1,6 @@
 import Verif.Model.Scanner
 import Verif.Model.CharMap
+import Verif.Model.States
+import Verif.Model.Tokenizer
 import Verif.Props.C11
 import Verif.Props.C17
